@@ -1,0 +1,39 @@
+//go:build verif
+// +build verif
+
+// Package verifhook provides named hook points for external runtime
+// verification (build tag `verif`). A monitor installs a handler with Set;
+// the handler decides per point whether to record, delay, gate or crash.
+package verifhook
+
+import "sync/atomic"
+
+// Enabled reports whether hooks are compiled in.
+const Enabled = true
+
+// Handler receives every point/event.
+type Handler func(name string, args []interface{})
+
+var handler atomic.Value // of Handler
+
+// Set installs (or with nil removes) the handler.
+func Set(h Handler) {
+	if h == nil {
+		h = func(string, []interface{}) {}
+	}
+	handler.Store(h)
+}
+
+// Point marks a schedule point.
+func Point(name string, args ...interface{}) {
+	if h, ok := handler.Load().(Handler); ok {
+		h(name, args)
+	}
+}
+
+// Event reports a value-carrying event.
+func Event(name string, args ...interface{}) {
+	if h, ok := handler.Load().(Handler); ok {
+		h(name, args)
+	}
+}
